@@ -271,6 +271,31 @@ func RetTerm(i int, term string) Sel {
 	}}
 }
 
+// Indexing selects index and slice operations whose container renders as base.
+func Indexing(base string) Sel {
+	return Sel{"index " + base, func(p *Prog, fn *ssa.Function) []ssa.Instruction {
+		var out []ssa.Instruction
+		r := func() *renderer { return &renderer{phis: map[*ssa.Phi]bool{}} }
+		eachInstr(fn, func(in ssa.Instruction) {
+			var b string
+			switch x := in.(type) {
+			case *ssa.IndexAddr:
+				b = r().base(x.X)
+			case *ssa.Index:
+				b = r().term(x.X)
+			case *ssa.Slice:
+				b = r().base(x.X)
+			default:
+				return
+			}
+			if b == base {
+				out = append(out, in)
+			}
+		})
+		return out
+	}}
+}
+
 // Panics selects explicit panic instructions.
 func Panics() Sel {
 	return Sel{"panic", func(p *Prog, fn *ssa.Function) []ssa.Instruction {
